@@ -173,6 +173,7 @@ struct queuing_rw_mutex_impl {
         // "sending" the fields initialized above to other actors.
         // We need acquire semantics, because we are acquiring the predecessor (or mutex if no predecessor)
         queuing_rw_mutex::scoped_lock* predecessor = m.q_tail.exchange(&s, std::memory_order_acq_rel);
+        __TBB_VERIF_POINT(vp_qrw_enqueued, &m, reinterpret_cast<std::intptr_t>(&s));
 
         if( write ) {       // Acquiring for write
 
@@ -282,6 +283,7 @@ struct queuing_rw_mutex_impl {
         __TBB_ASSERT(s.my_mutex!=nullptr, "no lock acquired");
 
         ITT_NOTIFY(sync_releasing, s.my_mutex);
+        __TBB_VERIF_POINT(vp_qrw_step, s.my_mutex, 1);
 
         if( s.my_state.load(std::memory_order_relaxed) == STATE_WRITER ) { // Acquired for write
 
@@ -418,6 +420,7 @@ struct queuing_rw_mutex_impl {
         d1::queuing_rw_mutex::scoped_lock* next = tricky_pointer::load(s.my_next, std::memory_order_acquire);
         if( !next ) {
             s.my_state.store(STATE_READER, std::memory_order_seq_cst);
+            __TBB_VERIF_POINT(vp_qrw_step, s.my_mutex, 2);
             // the following load of q_tail must not be reordered with setting STATE_READER above
             if( &s == s.my_mutex->q_tail.load(std::memory_order_seq_cst) ) {
                 unsigned char old_state = STATE_READER;
@@ -467,10 +470,12 @@ struct queuing_rw_mutex_impl {
         ITT_NOTIFY(sync_releasing, s.my_mutex);
         // Publish ourselves into my_state that other UPGRADE_WAITING actors can acquire our state.
         s.my_state.store(STATE_UPGRADE_REQUESTED, std::memory_order_release);
+        __TBB_VERIF_POINT(vp_qrw_step, s.my_mutex, 3);
     requested:
         __TBB_ASSERT( !(s.my_next.load(std::memory_order_relaxed) & FLAG), "use of corrupted pointer!" );
         acquire_internal_lock(s);
         d1::queuing_rw_mutex::scoped_lock* expected = &s;
+        __TBB_VERIF_POINT(vp_qrw_step, s.my_mutex, 4);
         if( !s.my_mutex->q_tail.compare_exchange_strong(expected, tricky_pointer(me)|FLAG, std::memory_order_acq_rel) ) {
             spin_wait_while_eq( s.my_next, 0U, std::memory_order_relaxed );
             queuing_rw_mutex::scoped_lock * next;
